@@ -21,15 +21,34 @@ def make_engine(classes, contracts, extra=None):
     return eng
 
 
+def group_script(eng, core_hyps, obls):
+    """One SMT-LIB script for all obligations that share their hypotheses:
+    (assert hyps) (assert (= p_i (not goal_i))) ... (check-sat-assuming (p_i)) per obligation."""
+    hyps, used = eng.final_hyps(core_hyps, [o.goal for o in obls])
+    s = z3.Solver()
+    for h in hyps:
+        s.add(h)
+    ps = []
+    for i, o in enumerate(obls):
+        p = z3.Bool('pyvc_goal_%d' % i)
+        s.add(z3.Implies(p, z3.Not(o.goal)))
+        ps.append('pyvc_goal_%d' % i)
+    text = s.to_smt2()
+    k = text.rindex('(check-sat)')
+    return text[:k], ps
+
+
 def gen_function(classes, contracts, name, extra=None):
-    """returns dict(name, sha, obligations=[(oname, kind, smt2|None, info)], error, assumptions)"""
+    """returns dict(name, sha, groups=[dict(prelude, checks=[(oname, kind, info, pvar)])],
+    obligations=[(oname, kind, None|'g', info)], error, assumptions)"""
     eng = make_engine(classes, contracts, extra)
     c = contracts[name]
-    out = dict(name=name, sha=None, obligations=[], error=None, assumptions=[], paths=0)
+    out = dict(name=name, sha=None, obligations=[], groups=[], error=None, assumptions=[], paths=0)
     try:
         obs = eng.verify_function(c)
         out['sha'] = eng.source_sha
         seen = {}
+        groups = {}
         for o in obs:
             nm = o.name
             if nm in seen:
@@ -37,10 +56,16 @@ def gen_function(classes, contracts, name, extra=None):
                 nm = '%s~%d' % (nm, seen[o.name])
             else:
                 seen[nm] = 0
+            o.uname = nm
             if not o.hyps and z3.is_true(o.goal):
                 out['obligations'].append((nm, o.kind, None, o.info))
             else:
-                out['obligations'].append((nm, o.kind, to_smt2(o.hyps, o.goal), o.info))
+                out['obligations'].append((nm, o.kind, 'g', o.info))
+                key = tuple(h.get_id() for h in o.hyps)
+                groups.setdefault(key, (o.hyps, []))[1].append(o)
+        for key, (hyps, obls) in groups.items():
+            prelude, ps = group_script(eng, hyps, obls)
+            out['groups'].append(dict(prelude=prelude, checks=[(o.uname, o.kind, o.info, p) for o, p in zip(obls, ps)]))
         out['assumptions'] = sorted(eng.used_assumptions)
         out['paths'] = len(eng.paths_ended)
         out['path_list'] = eng.paths_ended
@@ -49,6 +74,14 @@ def gen_function(classes, contracts, name, extra=None):
     except Exception as e:
         out['error'] = 'CRASH: %s\n%s' % (e, traceback.format_exc())
     return out
+
+
+def solve_function(r, timeout_ms=10000, second=True, short=()):
+    """discharge all obligations of a gen_function result -> dict oname -> (result, backend, secs, model)"""
+    from .solve import solve_groups
+    res = {o[0]: ('unsat', 'trivial', 0.0, '') for o in r['obligations'] if o[2] is None}
+    res.update(solve_groups(r['groups'], timeout_ms=timeout_ms, second=second, short=short))
+    return res
 
 
 def main():
@@ -67,7 +100,7 @@ def main():
             print('==', n, r['error'])
             continue
         tg = time.time() - t0
-        res = solve_all([(o[0], o[2]) for o in r['obligations']], timeout_ms=10000)
+        res = solve_function(r, timeout_ms=10000)
         if '-t' in sys.argv:
             print('   gen %.1fs; slowest:' % tg, sorted([(round(v[2], 2), k[-60:]) for k, v in res.items()], reverse=True)[:5])
         bad = [(o, res[o[0]]) for o in r['obligations'] if res[o[0]][0] != 'unsat']
